@@ -224,6 +224,12 @@ class _Inliner:
         body = _remap(lam["body"], mapping)
         if sub:
             body = _subst(body, sub)
+        # the parameters are ordinary locals now
+        pl = {mapping[p["did"]] for p in params}
+        for x in walk(body):
+            r = x.get("ref")
+            if isinstance(r, dict) and r.get("did") in pl and r.get("dk") == "ParmVar":
+                r["dk"] = "Var"
         self.count += 1
         return {"k": "CompoundStmt", "l": call.get("l"), "inlined_lambda": True, "c": decls + body.get("c", [])}
 
